@@ -43,6 +43,17 @@ with ids_or (o : orE) : list string := match o with OXor e => ids_xor e | OOr o 
 Definition ids_cond (c : cond) : list string :=
   match c with COr o => ids_or o | CTern s a b => ids_or s ++ ids_or a ++ ids_or b end.
 
+(* ---- constants of a tree ---- *)
+Fixpoint ks_prim (p : prim) : list konst :=
+  match p with PId _ => [] | PConst k => [k] | PParen o => ks_or o end
+with ks_unary (u : unary) : list konst := match u with UPrim p => ks_prim p | UNot p => ks_prim p end
+with ks_and (a : andE) : list konst := match a with AUn u => ks_unary u | AAnd a u => ks_and a ++ ks_unary u end
+with ks_xor (e : xorE) : list konst :=
+  match e with XAnd a => ks_and a | XXor e a => ks_xor e ++ ks_and a | XXnor e a => ks_xor e ++ ks_and a end
+with ks_or (o : orE) : list konst := match o with OXor e => ks_xor e | OOr o e => ks_or o ++ ks_xor e end.
+Definition ks_cond (c : cond) : list konst :=
+  match c with COr o => ks_or o | CTern s a b => ks_or s ++ ks_or a ++ ks_or b end.
+
 Definition cid (s : string) : cond := COr (OXor (XAnd (AUn (UPrim (PId s))))).
 Definition as_id (c : cond) : option string :=
   match c with COr (OXor (XAnd (AUn (UPrim (PId s))))) => Some s | _ => None end.
